@@ -27,6 +27,8 @@ func init() {
 				Quick: map[string]int{}, Witnesses: []string{"reparse-does-not-change-bound-portal", "rebind-picks-up-new-definition"}},
 			{Pkg: "wire", Entry: "VerifH07d", What: "re-binding a portal name replaces its result formats; Describe and Execute use the latest Bind's formats",
 				Quick: map[string]int{}, Witnesses: []string{"rebound-portal"}},
+			{Pkg: "wire", Entry: "VerifH07p", What: "each Execute hands the statement the parameter values (count, NULLs, bytes) of the latest Bind of that portal name, whatever was bound to other portals in between",
+				Quick: map[string]int{"PARAMS": 2}, Witnesses: []string{"earlier-portal-executed-after-later-bind", "rebound-portal-executed"}},
 			{Pkg: "wire", Entry: "VerifH07b", What: "statements/portals of one connection are invisible to the next connection on the same server",
 				Quick: map[string]int{}, Witnesses: []string{"isolated"}},
 		},
@@ -49,6 +51,8 @@ func init() {
 				Witnesses: []string{"one-code-applies-to-all", "positional-codes"}},
 			{Pkg: "wire", Entry: "VerifH07d", What: "result formats of the latest Bind of a portal name are the ones announced and used",
 				Quick: map[string]int{}, Witnesses: []string{"rebound-portal"}},
+			{Pkg: "wire", Entry: "VerifH07p", What: "two portals bound one after the other keep their own parameter values until executed",
+				Quick: map[string]int{"PARAMS": 2}, Witnesses: []string{"earlier-portal-executed-after-later-bind"}},
 			{Pkg: "wire", Entry: "VerifH08c", What: "ParameterDescription = declared OIDs", Quick: map[string]int{"PARAMS": 3},
 				Witnesses: []string{"two-declared-parameters"}},
 			{Pkg: "wire", Entry: "VerifH08d", What: "Parameter accessors and Scan", Quick: map[string]int{},
